@@ -167,6 +167,11 @@ enum Op {
     /// straight away (the way ZoneUpdater goes from one batch of an incremental transfer to the next)
     WCommit(bool, bool),
     WAbandon,
+    /// the writer goes away while its thread unwinds from a panic (of the application's, between its edits and its commit)
+    WPanic,
+    /// write access is asked for while the current writer is still at work: the future is made and polled once,
+    /// and gets its turn when the writer is done
+    WRequestNext,
 }
 
 fn history(c: &mut Ctx, rt: &tokio::runtime::Runtime, fam: &str, idx: u64) {
@@ -190,6 +195,7 @@ fn history(c: &mut Ctx, rt: &tokio::runtime::Runtime, fam: &str, idx: u64) {
     let mut committed: Vec<Content> = vec![init];
     let mut readers: Vec<Option<(Box<dyn ReadableZone>, usize)>> = (0..3).map(|_| None).collect();
     let mut writer: Option<(Box<dyn WritableZone>, Box<dyn WritableZoneNode>, Content)> = None;
+    let mut pending: Option<std::pin::Pin<Box<dyn std::future::Future<Output = Box<dyn WritableZone>> + Send + Sync>>> = None;
     let mut next_stamp = 1u32;
     let mut trace: Vec<String> = Vec::new();
     let nops = rng.range(8, 60);
@@ -207,7 +213,11 @@ fn history(c: &mut Ctx, rt: &tokio::runtime::Runtime, fam: &str, idx: u64) {
                 if rng.chance(1, 3) { Op::WRemoveAll } else { Op::WCommit(rng.bool(), rng.chance(1, 3)) }
             }
             18 => Op::WCommit(rng.bool(), rng.chance(1, 3)),
-            _ => Op::WAbandon,
+            _ => match rng.below(4) {
+                0 => Op::WPanic,
+                1 => Op::WRequestNext,
+                _ => Op::WAbandon,
+            },
         };
         let ex = |trace: &Vec<String>| json!({"ops": trace});
         let r = ctx::catch(|| -> Result<(), (String, String)> {
@@ -249,7 +259,14 @@ fn history(c: &mut Ctx, rt: &tokio::runtime::Runtime, fam: &str, idx: u64) {
                 }
                 Op::WOpen(diff) => {
                     if writer.is_none() {
-                        let wz = rt.block_on(zone.write());
+                        let wz = match pending.take() {
+                            Some(f) => {
+                                c.count("writers_that_asked_while_another_was_at_work", 1);
+                                sig_events.push(7);
+                                rt.block_on(f)
+                            }
+                            None => rt.block_on(zone.write()),
+                        };
                         let node = rt.block_on(wz.open(diff)).map_err(|e| ("writer:open-failed".to_string(), e.to_string()))?;
                         writer = Some((wz, node, committed.last().unwrap().clone()));
                         trace.push(format!("W open (diff {})", diff));
@@ -310,6 +327,32 @@ fn history(c: &mut Ctx, rt: &tokio::runtime::Runtime, fam: &str, idx: u64) {
                         }
                     }
                 }
+                Op::WPanic => {
+                    if let Some((wz, node, _)) = writer.take() {
+                        // (resume_unwind does not run the panic hook: nothing is recorded as a panic of the library's)
+                        let r = std::panic::catch_unwind(std::panic::AssertUnwindSafe(move || {
+                            let _held = (node, wz);
+                            std::panic::resume_unwind(Box::new("the application panics between its edits and its commit"));
+                        }));
+                        assert!(r.is_err());
+                        trace.push("W lost to a panic of its task".into());
+                        sig_events.push(6);
+                        c.count("writers_lost_to_a_panic", 1);
+                        check_invariants(&zone, Some((committed.len() - 1) as u32)).map_err(|e| ("invariant:after-abandon".to_string(), e))?;
+                    }
+                }
+                Op::WRequestNext => {
+                    if writer.is_some() && pending.is_none() {
+                        let mut f = zone.write();
+                        let wk = futures_util::task::noop_waker();
+                        let mut cx = std::task::Context::from_waker(&wk);
+                        if let std::task::Poll::Ready(_) = f.as_mut().poll(&mut cx) {
+                            return Err(("writers:not-serialised".into(), "write access was granted while another writer was at work".into()));
+                        }
+                        pending = Some(f);
+                        trace.push("W2 asks for write access (has to wait)".into());
+                    }
+                }
                 Op::WAbandon => {
                     if let Some((wz, node, _)) = writer.take() {
                         drop(node);
@@ -339,6 +382,7 @@ fn history(c: &mut Ctx, rt: &tokio::runtime::Runtime, fam: &str, idx: u64) {
     }
     // a fresh reader at the end sees the last committed content
     drop(writer.take());
+    drop(pending.take());
     let r = zone.read();
     let got = walk_stamps(r.as_ref());
     let want: BTreeSet<(Vec<u8>, u32)> = committed.last().unwrap().iter().filter(|(n, _)| **n != SOA_KEY).map(|(n, s)| (w::lower(&name_of(*n)), *s)).collect();
@@ -466,9 +510,29 @@ fn reader_thread(sh: Arc<Shared>, id: u32, seed: u64) {
                 std::thread::yield_now();
             }
         }
+        // the other query types go through code of their own: ANY and a type the name does not have
+        let mut any_stamps: BTreeSet<u32> = BTreeSet::new();
+        for &n in order.iter().take(2) {
+            if let Ok(a) = r.query(qname_of(&name_of(n)), Rtype::ANY) {
+                if let AnswerContent::Data(rr) = a.content() {
+                    if rr.rtype() == Rtype::TXT {
+                        for d in rr.data() {
+                            let mut b = Vec::new();
+                            if d.compose_rdata(&mut b).is_ok() {
+                                any_stamps.extend(stamp_of(&b));
+                            }
+                        }
+                    }
+                }
+            }
+            let _ = r.query(qname_of(&name_of(n)), Rtype::MX);
+        }
         let wk = walk_stamps(r.as_ref());
         let wstamps: BTreeSet<u32> = wk.iter().map(|x| x.1).collect();
         sh.reads.fetch_add(1, Ordering::Relaxed);
+        if !any_stamps.is_subset(&stamps) {
+            sh.violations.lock().unwrap().push(("snapshot:any-query-other-version".to_string(), format!("ANY queries of a reader saw stamps {:?}, its TXT queries {:?}", any_stamps, stamps)));
+        }
         let mut bad = |sig: &str, what: String| sh.violations.lock().unwrap().push((sig.to_string(), what));
         if stamps.iter().chain(wstamps.iter()).any(|s| *s >= ABANDON_BASE && *s != u32::MAX) {
             bad("snapshot:abandoned-data-visible", format!("a reader saw the stamp of an abandoned writer: queries {:?} walk {:?}", stamps, wstamps));
@@ -536,13 +600,51 @@ fn stress(c: &mut Ctx, round: u64, readers: u32, writers: u32, rounds: u32, work
         })
         .collect();
     let seed = c.seed ^ round;
-    rt.block_on(async {
+    // a stall monitor: no read, commit or abandon for 20 s of wall time during which the whole process used next to
+    // no CPU time is a deadlock (threads blocked on each other burn nothing; a loaded machine still gives some progress)
+    let stalled = rt.block_on(async {
         let hs: Vec<_> = (0..writers).map(|i| tokio::spawn(writer_task(sh.clone(), i, rounds, seed))).collect();
-        for h in hs {
-            let _ = h.await;
+        let mut all = Box::pin(async move {
+            for h in hs {
+                let _ = h.await;
+            }
+        });
+        let progress = |sh: &Shared| sh.reads.load(Ordering::Relaxed) + sh.commits.load(Ordering::Relaxed) + sh.abandons.load(Ordering::Relaxed);
+        let mut last = progress(&sh);
+        let mut since = std::time::Instant::now();
+        let mut cpu_at = ctx::process_cpu_s();
+        loop {
+            tokio::select! {
+                _ = &mut all => break false,
+                _ = tokio::time::sleep(std::time::Duration::from_millis(500)) => {
+                    ctx::beat();
+                    let p = progress(&sh);
+                    if p != last {
+                        last = p;
+                        since = std::time::Instant::now();
+                        cpu_at = ctx::process_cpu_s();
+                    } else if !miri && since.elapsed().as_secs_f64() > 20.0 {
+                        if ctx::process_cpu_s() - cpu_at < 2.0 {
+                            break true;
+                        }
+                        since = std::time::Instant::now();
+                        cpu_at = ctx::process_cpu_s();
+                    }
+                }
+            }
         }
     });
     sh.stop.store(1, Ordering::SeqCst);
+    if stalled {
+        // the threads are stuck for good: leave them behind, report, and run nothing further in this process
+        domain::verif_hooks::set_pause(None);
+        rt.shutdown_background();
+        std::mem::forget(rthreads);
+        let rp = c.replay_of("stress", round, json!({"readers": readers, "writers": writers, "rounds": rounds}));
+        c.violation("deadlock:readers-and-writers", &format!("{} reader threads (TXT, ANY and MX queries, walks) and {} writers on one zone: no read, commit or abandon for 20 s while the process used no CPU time; {} reads, {} commits, {} abandons had been made", readers, writers, sh.reads.load(Ordering::Relaxed), sh.commits.load(Ordering::Relaxed), sh.abandons.load(Ordering::Relaxed)), rp);
+        c.count("stress_deadlocked", 1);
+        return;
+    }
     for t in rthreads {
         let _ = t.join();
     }
@@ -603,7 +705,7 @@ pub fn run(c: &mut Ctx) {
         (c.total(3, 600), 3, 2, 400, 2)
     };
     for round in 0..rounds_n {
-        if c.replaying() || c.out_of_time() {
+        if c.replaying() || c.out_of_time() || c.get_count("stress_deadlocked") > 0 {
             break;
         }
         stress(c, round * 1000 + c.shard, readers, writers, rounds, workers, miri);
@@ -613,6 +715,8 @@ pub fn run(c: &mut Ctx) {
         c.floor("abandoned_writers", 100);
         c.floor("commits", 100);
         c.floor("writers_reopened_after_commit", 100);
+        c.floor("writers_lost_to_a_panic", 50);
+        c.floor("writers_that_asked_while_another_was_at_work", 50);
         c.floor("stress_overlap_windows", 10);
         c.floor("stress_abandons", 10);
         c.floor("stress_commits", 10);
